@@ -103,6 +103,24 @@ def execute(ctx, case):
       "roc(fnr=) rates are inconsistent with its thresholds or the requested rates", "data-roc-fnr")
     rc = ds.roc(fpr=r)
     C(np.allclose(rc.fnr, ds.fnr(rc.thresholds)) and np.allclose(rc.fpr, ds.fpr(rc.thresholds)) and np.allclose(rc.fpr, r, rtol=1e-9), "roc(fpr=) rates are inconsistent with its thresholds or the requested rates", "data-roc-fpr")
+    # the curve's rates are the analytic rates *at the returned thresholds* (not the requested ones passed through): visible where
+    # thresholds are coarse - a location far from zero relative to the spread - and in what a kept curve does when the caller
+    # re-uses the array of requested rates afterwards
+    shift = float(case["_seed"] % 2 * 2 - 1) * float([1e6, 3e9, 1e12][case["_seed"] % 3])
+    far = NormalDataset(mu_pos=mu_p + shift, mu_neg=mu_n + shift, sigma_pos=sp, sigma_neg=sn, score_class=sc)
+    for which in ("fnr", "fpr"):
+        grid = np.array(r, dtype=float)
+        grid0 = grid.copy()
+        rc = far.roc(**{which: grid})
+        C(np.allclose(rc.fnr, far.fnr(rc.thresholds), rtol=1e-13, atol=0) and np.allclose(rc.fpr, far.fpr(rc.thresholds), rtol=1e-13, atol=0),
+          "roc(%s=): rates are not the analytic rates at the returned thresholds (location far from zero)" % which, "data-roc-consistent-far", shift=shift,
+          rates=np.asarray(getattr(rc, which)), at_thresholds=np.asarray(getattr(far, which)(rc.thresholds)))
+        kept = (np.array(rc.fnr, copy=True), np.array(rc.fpr, copy=True), np.array(rc.thresholds, copy=True))
+        C(np.array_equal(grid, grid0), "roc() changed the caller's array of requested rates", "data-roc-args")
+        grid[:] = grid[::-1].copy()  # the caller re-uses its buffer
+        grid *= 0.5
+        C(np.array_equal(rc.fnr, kept[0]) and np.array_equal(rc.fpr, kept[1]) and np.array_equal(rc.thresholds, kept[2]),
+          "a returned curve changed when the caller re-used the array of requested rates", "data-roc-kept-curve", which=which)
     for kw in ({}, {"fnr": r, "fpr": r}):
         try:
             ds.roc(**kw)
